@@ -11,12 +11,20 @@
 //!      std atomics have no yield points) with COMMUTING exact values; the order-independent result is compared
 //!      with the model run on a round-robin schedule and with an own tally.
 //!
+//!  (A', round 2) IEEE gauge sessions (`atomics itrace`): inc/dec/set with ANY operand (non-dyadic, subnormal, ±0.0,
+//!      operands chosen relative to the current value so that sums round) compared bit for bit with the model's
+//!      IEEE-754 addition; `GaugeValue::update_value` (`atomics upd`) and `__into_f64` (`atomics dconv`).
+//!  (B', round 2) absolutes RACING increments (`conc_counter_race`), and in every concurrent counter run with
+//!      absolutes each thread reads the cell after each of its calls (never decreasing; ≥ v right after
+//!      `absolute(v)`): oracles that hold in every interleaving, so a check-then-act `absolute` is caught by a
+//!      concrete failing run. Raced programs are re-run sequentially on the real code and compared with the model.
+//!
 //! Oracles (independent of the model): own u128/i128 tallies of sums, maxima, last set, delivery counts;
 //! every call runs under `catch_unwind` (a panic is an oracle failure).
 
 use crate::util::*;
 use metrics::atomics::AtomicU64;
-use metrics::{Counter, Gauge, Histogram, HistogramFn};
+use metrics::{Counter, Gauge, GaugeValue, Histogram, HistogramFn};
 use std::panic::{catch_unwind, AssertUnwindSafe};
 use std::sync::atomic::{AtomicBool, AtomicUsize, Ordering};
 use std::sync::{Arc, Mutex};
@@ -347,6 +355,17 @@ enum GKind {
     Set,
 }
 
+/// how a sequential gauge session is compared with the model
+#[derive(Clone, Copy, PartialEq, Debug)]
+enum GMode {
+    /// `atomics trace`: exact dyadic carrier, bit patterns
+    Exact,
+    /// `atomics cls`: exact dyadic carrier, classes nan/±inf/fin
+    Classes,
+    /// `atomics itrace`: bit-level IEEE carrier (any operands, rounding included), NaN cells by class
+    Ieee,
+}
+
 fn gauge_handles(arc: &Arc<AtomicU64>, n_live: usize, with_noop: bool) -> Vec<(Gauge, bool)> {
     let mut hs: Vec<(Gauge, bool)> = vec![];
     for i in 0..n_live {
@@ -379,7 +398,7 @@ fn seq_gauge(
     n_live: usize,
     with_noop: bool,
     n: usize,
-    classes: bool,
+    mode: GMode,
     pick: &mut dyn FnMut(f64) -> (usize, GKind, Arg),
 ) {
     let mut pend = Pending::default();
@@ -408,7 +427,11 @@ fn seq_gauge(
         let after = f64::from_bits(after_bits);
         progs[h].push(tok.clone());
         sched.push(h);
-        trace.push(if classes { cls(after).to_string() } else { format!("{:016x}", after_bits) });
+        trace.push(match mode {
+            GMode::Classes => cls(after).to_string(),
+            GMode::Ieee if after.is_nan() => "nan".to_string(),
+            _ => format!("{:016x}", after_bits),
+        });
         if !*live {
             if after_bits != before.to_bits() {
                 pend.fail("a call through a no-op gauge handle changed the storage", &tok);
@@ -434,8 +457,10 @@ fn seq_gauge(
         }
     }
     let t = if trace.is_empty() { "-".to_string() } else { trace.join(".") };
-    if classes {
+    if mode == GMode::Classes {
         out.op(&format!("atomics cls {:x} {} {}", c0.to_bits(), progs_tok(&progs), sched_tok(&sched)), &format!("t={}", t));
+    } else if mode == GMode::Ieee {
+        out.op(&format!("atomics itrace {:x} {} {}", c0.to_bits(), progs_tok(&progs), sched_tok(&sched)), &format!("t={} n={}", t, n_eff));
     } else {
         out.op(
             &format!("atomics trace {:x} {} {}", c0.to_bits(), progs_tok(&progs), sched_tok(&sched)),
@@ -456,7 +481,7 @@ fn gen_seq_gauge_exact(r: &mut Rng, out: &mut Out) {
     let n = r.range(1, 24);
     let mut r2 = r.clone();
     out.count("seq.gauge.exact");
-    seq_gauge(out, c0, n_live, with_noop, n, false, &mut |cur: f64| {
+    seq_gauge(out, c0, n_live, with_noop, n, GMode::Exact, &mut |cur: f64| {
         let h = r2.below(nh);
         if is_dy(cur) && r2.chance(3, 4) {
             (h, if r2.chance(1, 2) { GKind::Inc } else { GKind::Dec }, exact_arg(&mut r2))
@@ -476,7 +501,7 @@ fn gen_seq_gauge_classes(r: &mut Rng, out: &mut Out) {
     let n = r.range(1, 16);
     let mut r2 = r.clone();
     out.count("seq.gauge.classes");
-    seq_gauge(out, c0, n_live, with_noop, n, true, &mut |cur: f64| {
+    seq_gauge(out, c0, n_live, with_noop, n, GMode::Classes, &mut |cur: f64| {
         let h = r2.below(nh);
         let nonfinite = [f64::NAN, f64::INFINITY, f64::NEG_INFINITY];
         let k = if r2.chance(1, 2) { GKind::Inc } else { GKind::Dec };
@@ -493,6 +518,121 @@ fn gen_seq_gauge_classes(r: &mut Rng, out: &mut Out) {
             _ => (h, GKind::Set, Arg::F64(special_f64(&mut r2))),
         }
     });
+}
+
+/// an operand chosen RELATIVE to the current value, so that the addition really rounds: same or nearby exponent
+/// (−60…+60), random fraction with a random number of low bits cleared (exact halves = ties), either sign;
+/// now and then exactly ±current (cancellation to ±0) or current ± 1 ulp
+fn near_f64(r: &mut Rng, cur: f64) -> f64 {
+    if !cur.is_finite() {
+        return special_f64(r);
+    }
+    let cb = cur.to_bits();
+    match r.below(10) {
+        0 => return cur,
+        1 => return -cur,
+        2 => return f64::from_bits((cb & !(1u64 << 63)).wrapping_add(1).min(0x7fef_ffff_ffff_ffff)),
+        3 => return f64::from_bits((cb & !(1u64 << 63)).saturating_sub(1) | (r.next() & (1u64 << 63))),
+        _ => {}
+    }
+    let e = ((cb >> 52) & 0x7ff) as i64;
+    let ne = (e + r.range(0, 120) as i64 - 60).clamp(0, 2046) as u64;
+    let keep = r.range(0, 52);
+    let frac = (r.next() & ((1u64 << 52) - 1)) & !((1u64 << (52 - keep)) - 1);
+    f64::from_bits((r.next() & (1u64 << 63)) | (ne << 52) | frac)
+}
+
+/// any argument whose conversion the bit-level model determines: every f64/f32 bit pattern (NaNs quiet), every
+/// integer type, exact `Duration`s
+fn ieee_arg(r: &mut Rng, cur: f64) -> Arg {
+    match r.below(10) {
+        0 | 1 => Arg::F64(special_f64(r)),
+        2 => Arg::F64(*r.pick(&[0.0, -0.0, -0.0, 0.1, -0.1, 1e300, -1e300, f64::MAX, f64::MIN, f64::MIN_POSITIVE, 5e-324, -5e-324, 1.0, 0.5, 9007199254740992.0])),
+        3 => Arg::F32(*r.pick(&[0.0f32, -0.0, 0.1, 1.0e-45, -1.0e-45, f32::MIN_POSITIVE, f32::MAX, f32::MIN, f32::INFINITY, f32::NEG_INFINITY, f32::NAN, 16777217.0])),
+        4 => exact_arg(r),
+        _ => Arg::F64(near_f64(r, cur)),
+    }
+}
+
+/// (A2') gauge sessions over ALL operand classes — non-dyadic values, subnormals, ±0.0 as current value and as
+/// operand, huge values, NaN/±∞ — compared bit for bit with the model's IEEE addition; `Arc<Arc<AtomicU64>>`
+/// handles (index 3) are used as often as the others
+fn gen_seq_gauge_ieee(r: &mut Rng, out: &mut Out) {
+    let c0 = match r.below(4) {
+        0 => 0.0,
+        1 => -0.0,
+        _ => special_f64(r),
+    };
+    let n_live = *r.pick(&[1usize, 2, 3, 4, 4, 4]);
+    let with_noop = r.chance(1, 4);
+    let nh = n_live + with_noop as usize;
+    let n = r.range(1, 24);
+    let mut r2 = r.clone();
+    out.count("seq.gauge.ieee");
+    seq_gauge(out, c0, n_live, with_noop, n, GMode::Ieee, &mut |cur: f64| {
+        let h = if n_live == 4 && r2.chance(1, 2) { 3 } else { r2.below(nh) };
+        let a = ieee_arg(&mut r2, cur);
+        match r2.below(8) {
+            0 => (h, GKind::Set, a),
+            1..=4 => (h, GKind::Inc, a),
+            _ => (h, GKind::Dec, a),
+        }
+    });
+}
+
+/// `GaugeValue::update_value` (what exporters use to replay gauge operations): compared with the model
+/// (`atomics upd`), with a native computation, and with what the SAME operation does to the real storage
+fn gen_update_value(r: &mut Rng, out: &mut Out) {
+    let mut pend = Pending::default();
+    out.count("seq.update_value");
+    for _ in 0..12 {
+        let input = match r.below(4) {
+            0 => *r.pick(&[0.0, -0.0]),
+            _ => special_f64(r),
+        };
+        let x = match r.below(3) {
+            0 => special_f64(r),
+            1 => *r.pick(&[0.0, -0.0, 0.1, 1.0, -1.0, 1e300, 5e-324]),
+            _ => near_f64(r, input),
+        };
+        let k = r.below(3);
+        let (gv, ktok, kind) = match k {
+            0 => (GaugeValue::Absolute(x), "a", GKind::Set),
+            1 => (GaugeValue::Increment(x), "i", GKind::Inc),
+            _ => (GaugeValue::Decrement(x), "d", GKind::Dec),
+        };
+        let what = format!("{:?}.update_value({:016x})", gv, input.to_bits());
+        let mut got = f64::NAN;
+        guarded(&mut pend, &what, || got = gv.update_value(input));
+        let want = match k {
+            0 => x,
+            1 => input + x,
+            _ => input - x,
+        };
+        if !same_f64_bits(got.to_bits(), want) {
+            pend.fail(
+                "GaugeValue::update_value did not return set → the value, increment → input + value, decrement → input − value",
+                &format!("{} returned {:016x} want {:016x}", what, got.to_bits(), want.to_bits()),
+            );
+        }
+        // the same operation on the real storage, through a handle
+        let arc = Arc::new(AtomicU64::new(input.to_bits()));
+        let g = Gauge::from_arc(Arc::new(arc.clone()));
+        guarded(&mut pend, &what, || gauge_call(&g, kind, Arg::F64(x)));
+        let cell = arc.load(Ordering::SeqCst);
+        if !same_f64_bits(cell, got) {
+            pend.fail(
+                "GaugeValue::update_value disagrees with what the same gauge operation does to the AtomicU64 storage",
+                &format!("{} returned {:016x}, the storage holds {:016x}", what, got.to_bits(), cell),
+            );
+        }
+        out.op(
+            &format!("atomics upd {:x} {} f64:{:016x}", input.to_bits(), ktok, x.to_bits()),
+            &(if got.is_nan() { "nan".to_string() } else { format!("{:016x}", got.to_bits()) }),
+        );
+    }
+    out.nontrivial();
+    pend.flush(out);
 }
 
 // ---------------------------------------------------------------------------------------------
@@ -649,6 +789,23 @@ fn conv_one(out: &mut Out, a: Arg) {
     }
     let ans = if !a.model_exact() { "inexact".to_string() } else { format!("{:016x}", got) };
     out.op(&format!("atomics conv {}", a.tok()), &ans);
+    // the doc-hidden monomorphisation helper the `histogram!` macro calls
+    let mut via = f64::NAN;
+    guarded(&mut pend, "__into_f64", || via = with_arg!(a, x => metrics::__into_f64(x)));
+    if !same_f64_bits(via.to_bits(), a.expected()) {
+        pend.fail(
+            "__into_f64(x) returned a value other than the documented f64 conversion of the argument",
+            &format!("{} got {:016x} want {:016x}", a.tok(), via.to_bits(), a.expected().to_bits()),
+        );
+    }
+    let ans2 = if !a.model_exact() {
+        "inexact".to_string()
+    } else if via.is_nan() && a.expected().is_nan() {
+        format!("{:016x}", got)
+    } else {
+        format!("{:016x}", via.to_bits())
+    };
+    out.op(&format!("atomics dconv {}", a.tok()), &ans2);
     pend.flush(out);
 }
 
@@ -788,6 +945,193 @@ enum CKind {
     Mixed,
 }
 
+/// Runs the counter programs truly concurrently, one thread per program, through clones of `root`
+/// (`Counter::clone`, `From<Arc<_>>`, `from_arc(Arc<Arc<AtomicU64>>)` in turn).  With `observe`, every thread
+/// reads the cell right after each of its live calls and checks what holds for EVERY interleaving when no
+/// increment wraps (`C04.counter_abs`, `C04.counter_abs_monotone`): the values one thread sees never decrease,
+/// and right after `absolute(v)` returned the counter is at least `v` (the update was not dropped).
+/// Returns (panicked calls, first violation of each thread).
+fn run_counter_progs(arc: &Arc<AtomicU64>, root: &Counter, progs: &[Vec<(bool, COp)>], observe: bool) -> (usize, Vec<(String, String)>) {
+    let viol: Arc<Mutex<Vec<(String, String)>>> = Arc::new(Mutex::new(vec![]));
+    let bodies: Vec<Box<dyn FnOnce() -> usize + Send>> = progs
+        .iter()
+        .enumerate()
+        .map(|(t, p)| {
+            let p = p.clone();
+            let h = match t % 3 {
+                0 => root.clone(),
+                1 => Counter::from(arc.clone()),
+                _ => Counter::from_arc(Arc::new(arc.clone())), // Arc<Arc<AtomicU64>>: `impl CounterFn for Arc<T>`
+            };
+            let noop = Counter::noop();
+            let cell = arc.clone();
+            let viol = viol.clone();
+            Box::new(move || {
+                let mut panics = 0;
+                let mut last = cell.load(Ordering::SeqCst);
+                let mut bad: Option<(String, String)> = None;
+                for (i, (live, op)) in p.into_iter().enumerate() {
+                    let hh = if live { &h } else { &noop };
+                    let res = catch_unwind(AssertUnwindSafe(|| match op {
+                        COp::Inc(v) => hh.increment(v),
+                        COp::Abs(v) => hh.absolute(v),
+                    }));
+                    panics += res.is_err() as usize;
+                    if observe && live {
+                        let seen = cell.load(Ordering::SeqCst);
+                        if bad.is_none() {
+                            if seen < last {
+                                bad = Some((
+                                    "concurrent counter updates without wrap-around: a thread saw the counter decrease".to_string(),
+                                    format!("thread {} call #{} {:?}: saw {} after having seen {}", t, i, op, seen, last),
+                                ));
+                            } else if let COp::Abs(v) = op {
+                                if seen < v {
+                                    bad = Some((
+                                        "concurrent counter updates: right after absolute(v) returned the counter was below v (the absolute update was dropped)".to_string(),
+                                        format!("thread {} call #{} absolute({}) left the counter at {} (seen before the call: {})", t, i, v, seen, last),
+                                    ));
+                                }
+                            }
+                        }
+                        last = seen;
+                    }
+                }
+                if let Some(b) = bad {
+                    viol.lock().unwrap().push(b);
+                }
+                panics
+            }) as Box<dyn FnOnce() -> usize + Send>
+        })
+        .collect();
+    let panics = race(bodies);
+    let v = viol.lock().unwrap().clone();
+    (panics, v)
+}
+
+fn counter_toks(progs: &[Vec<(bool, COp)>]) -> Vec<Vec<String>> {
+    progs
+        .iter()
+        .map(|p| {
+            p.iter()
+                .map(|(live, op)| match op {
+                    COp::Inc(v) => format!("{}i{}", if *live { "L" } else { "N" }, v),
+                    COp::Abs(v) => format!("{}a{}", if *live { "L" } else { "N" }, v),
+                })
+                .collect()
+        })
+        .collect()
+}
+
+/// absolutes RACING increments (the interleavings in which another writer lands inside an `absolute`):
+///  * `low`: every absolute value is ≤ the start value, so no absolute may change anything and the final value
+///    is exactly start + Σ increments whatever the order (compared with the model run too);
+///  * `growing`: 1–2 threads publish strictly growing absolute values, each far above anything the increments
+///    of the other threads can reach (so every one of them must take effect), each checked right after its call.
+fn conc_counter_race(r: &mut Rng, out: &mut Out, len: usize) {
+    let mut pend = Pending::default();
+    let low = r.chance(1, 3);
+    let nt = r.range(2, 4);
+    const STEP: u64 = 1 << 32;
+    let c0: u64 = if low { (1u64 << 40) + r.below(1000) as u64 } else { r.below(1000) as u64 };
+    let n_abs = if nt >= 3 && r.chance(1, 2) { 2 } else { 1 };
+    let per = len * 2;
+    let mut progs: Vec<Vec<(bool, COp)>> = vec![];
+    for t in 0..nt {
+        let k = r.range(per / 2, per);
+        let inc_max = *r.pick(&[1usize, 1, 4, 16]);
+        progs.push(
+            (0..k)
+                .map(|j| {
+                    let live = !r.chance(1, 200);
+                    let op = if low {
+                        if r.chance(1, 2) {
+                            COp::Inc(r.range(0, 16) as u64)
+                        } else {
+                            let any = r.next() % (c0 + 1);
+                            COp::Abs(*r.pick(&[0, 1, c0, c0 - 1, any]))
+                        }
+                    } else if t < n_abs {
+                        // mostly growing absolutes, now and then an older (smaller) one or an increment of its own
+                        match r.below(16) {
+                            0 => COp::Abs((r.next() % (j as u64 + 1)) * STEP),
+                            1 => COp::Inc(1),
+                            _ => COp::Abs(((j * n_abs + t + 1) as u64) * STEP),
+                        }
+                    } else {
+                        COp::Inc(r.range(1, inc_max) as u64)
+                    };
+                    (live, op)
+                })
+                .collect(),
+        );
+    }
+    let arc = Arc::new(AtomicU64::new(c0));
+    let root = Counter::from_arc(arc.clone());
+    let (panics, observed) = run_counter_progs(&arc, &root, &progs, true);
+    if panics > 0 {
+        pend.fail("a handle operation panicked", &format!("{} calls in a concurrent counter run", panics));
+    }
+    for v in observed {
+        pend.fail(&v.0, &v.1);
+    }
+    let fin = arc.load(Ordering::SeqCst);
+    let (mut sum, mut mx, mut n_eff) = (0u128, c0, 0u64);
+    for p in &progs {
+        for (live, op) in p {
+            if *live {
+                n_eff += 1;
+                match op {
+                    COp::Inc(v) => sum += *v as u128,
+                    COp::Abs(v) => mx = mx.max(*v),
+                }
+            }
+        }
+    }
+    let detail = format!("threads {} calls {} start {} final {} largest absolute {} sum of increments {}", nt, n_eff, c0, fin, mx, sum);
+    if fin < mx || (fin as u128) > mx as u128 + sum {
+        pend.fail("concurrent increments and absolutes: counter below the largest absolute value or above max + increments", &detail);
+    }
+    if low {
+        if fin as u128 != c0 as u128 + sum {
+            pend.fail(
+                "concurrent increments with absolutes that are all below the counter: the counter is not start + all increments (an increment was lost or an absolute changed the value)",
+                &detail,
+            );
+        }
+        let lens: Vec<usize> = progs.iter().map(|p| p.len()).collect();
+        out.op(
+            &format!("atomics run {:x} {} {}", c0, progs_tok(&counter_toks(&progs)), sched_tok(&round_robin(&lens))),
+            &format!("cell={:016x} w=0 n={} done=1", fin, n_eff),
+        );
+    } else {
+        // the result of the race depends on the order; so that the replay carries the programs and the model sees
+        // them too, the SAME programs are run once more on a fresh cell through real handles, one call at a time
+        // in round-robin order, and that run is compared with the model on the same schedule
+        let lens: Vec<usize> = progs.iter().map(|p| p.len()).collect();
+        let sched = round_robin(&lens);
+        let arc2 = Arc::new(AtomicU64::new(c0));
+        let hs = counter_handles(&arc2, progs.len(), true);
+        let mut pos = vec![0usize; progs.len()];
+        for t in &sched {
+            let (live, op) = progs[*t][pos[*t]];
+            pos[*t] += 1;
+            let hh = if live { &hs[*t].0 } else { &hs[progs.len()].0 };
+            guarded(&mut pend, "sequential re-run of the raced programs", || match op {
+                COp::Inc(v) => hh.increment(v),
+                COp::Abs(v) => hh.absolute(v),
+            });
+        }
+        out.op(
+            &format!("atomics run {:x} {} {}", c0, progs_tok(&counter_toks(&progs)), sched_tok(&sched)),
+            &format!("cell={:016x} w=0 n={} done=1", arc2.load(Ordering::SeqCst), n_eff),
+        );
+    }
+    out.count(&format!("conc.counter.race.{}.threads={}", if low { "low_abs" } else { "growing_abs" }, nt));
+    out.nontrivial();
+    pend.flush(out);
+}
+
 fn conc_counter(r: &mut Rng, out: &mut Out, kind: CKind, len: usize) {
     let mut pend = Pending::default();
     let nt = r.range(2, 4);
@@ -837,30 +1181,12 @@ fn conc_counter(r: &mut Rng, out: &mut Out, kind: CKind, len: usize) {
                 .collect(),
         );
     }
-    let bodies: Vec<Box<dyn FnOnce() -> usize + Send>> = progs
-        .iter()
-        .enumerate()
-        .map(|(t, p)| {
-            let p = p.clone();
-            let h = if t % 2 == 0 { root.clone() } else { Counter::from(arc.clone()) };
-            let noop = Counter::noop();
-            Box::new(move || {
-                let mut panics = 0;
-                for (live, op) in p {
-                    let hh = if live { &h } else { &noop };
-                    let res = catch_unwind(AssertUnwindSafe(|| match op {
-                        COp::Inc(v) => hh.increment(v),
-                        COp::Abs(v) => hh.absolute(v),
-                    }));
-                    panics += res.is_err() as usize;
-                }
-                panics
-            }) as Box<dyn FnOnce() -> usize + Send>
-        })
-        .collect();
-    let panics = race(bodies);
+    let (panics, observed) = run_counter_progs(&arc, &root, &progs, kind != CKind::Inc);
     if panics > 0 {
         pend.fail("a handle operation panicked", &format!("{} calls in a concurrent counter run", panics));
+    }
+    for v in observed {
+        pend.fail(&v.0, &v.1);
     }
     let fin = arc.load(Ordering::SeqCst);
     // own tally
@@ -1099,7 +1425,7 @@ fn corpus(out: &mut Out) {
             (0, GKind::Dec, Arg::F64(0.0)),
         ];
         let mut i = 0;
-        seq_gauge(out, 0.0, 3, true, script.len(), false, &mut |_| {
+        seq_gauge(out, 0.0, 3, true, script.len(), GMode::Exact, &mut |_| {
             i += 1;
             script[i - 1]
         });
@@ -1121,7 +1447,37 @@ fn corpus(out: &mut Out) {
             (0, GKind::Dec, Arg::F64(f64::NAN)),
         ];
         let mut i = 0;
-        seq_gauge(out, 0.0, 2, false, script.len(), true, &mut |_| {
+        seq_gauge(out, 0.0, 2, false, script.len(), GMode::Classes, &mut |_| {
+            i += 1;
+            script[i - 1]
+        });
+    }
+    out.case("corpus: gauge IEEE operands (-0.0, 0.1, subnormals, ties, overflow) through Arc<Arc<AtomicU64>>");
+    {
+        let script: Vec<(usize, GKind, Arg)> = vec![
+            (3, GKind::Set, Arg::F64(-0.0)),
+            (3, GKind::Inc, Arg::F64(-0.0)),                   // -0 + -0 = -0
+            (3, GKind::Dec, Arg::F64(0.0)),                    // -0 - +0 = -0
+            (3, GKind::Inc, Arg::F64(0.0)),                    // -0 + +0 = +0
+            (3, GKind::Dec, Arg::F64(0.0)),                    // +0 - +0 = +0
+            (0, GKind::Inc, Arg::F64(0.1)),
+            (3, GKind::Inc, Arg::F64(0.2)),                    // 0.30000000000000004
+            (1, GKind::Dec, Arg::F64(0.30000000000000004)),    // exact cancellation: +0
+            (3, GKind::Dec, Arg::F64(5e-324)),                 // smallest subnormal, negative
+            (3, GKind::Inc, Arg::F32(1.0e-45)),                // f32 subnormal, widened
+            (2, GKind::Set, Arg::F64(9007199254740992.0)),     // 2^53
+            (3, GKind::Inc, Arg::F64(1.0)),                    // tie → even (stays 2^53)
+            (3, GKind::Inc, Arg::F64(3.0)),                    // 2^53+3 → 2^53+4
+            (3, GKind::Set, Arg::F64(f64::MAX)),
+            (3, GKind::Inc, Arg::F64(f64::MAX)),               // overflow → +inf
+            (3, GKind::Dec, Arg::F64(f64::INFINITY)),          // inf - inf = NaN
+            (0, GKind::Set, Arg::F64(1e300)),
+            (3, GKind::Dec, Arg::F64(-1e300)),                 // 2e300
+            (3, GKind::Set, Arg::F64(f64::MIN_POSITIVE)),
+            (3, GKind::Dec, Arg::F64(5e-324)),                 // normal → largest subnormal
+        ];
+        let mut i = 0;
+        seq_gauge(out, 0.0, 4, false, script.len(), GMode::Ieee, &mut |_| {
             i += 1;
             script[i - 1]
         });
@@ -1158,9 +1514,11 @@ pub fn run(cfg: &Cfg, out: &mut Out) {
         out.case(&format!("seed={} i={}", cfg.seed, i));
         match i % 20 {
             0..=3 => gen_seq_counter(&mut r, out),
-            4..=7 => gen_seq_gauge_exact(&mut r, out),
+            4..=5 => gen_seq_gauge_exact(&mut r, out),
+            6..=7 => gen_seq_gauge_ieee(&mut r, out),
             8..=9 => gen_seq_gauge_classes(&mut r, out),
             10..=12 => gen_seq_hist(&mut r, out),
+            13 if i % 40 == 33 => gen_update_value(&mut r, out),
             13 => {
                 out.count("seq.conv.random");
                 for _ in 0..8 {
@@ -1182,7 +1540,13 @@ pub fn run(cfg: &Cfg, out: &mut Out) {
             }
             14 => conc_counter(&mut r, out, CKind::Inc, conc_len),
             15 => conc_counter(&mut r, out, CKind::Abs, conc_len),
-            16 => conc_counter(&mut r, out, CKind::Mixed, conc_len),
+            16 => {
+                if i % 40 == 16 {
+                    conc_counter(&mut r, out, CKind::Mixed, conc_len)
+                } else {
+                    conc_counter_race(&mut r, out, conc_len)
+                }
+            }
             17 | 18 => conc_gauge(&mut r, out, conc_len),
             _ => {
                 if i % 40 == 19 {
